@@ -159,6 +159,9 @@ pub struct RegWorld {
   pub lock_manifests: Vec<(String, bool)>,
   /// lockfile remote entries: (URL, matches the served bytes?) - also for https URLs into the registry
   pub lock_remote: Vec<(String, bool)>,
+  /// `jsr` entries of a lockfile: (package name, requirement text without the name, version) the
+  /// graph's package table is seeded with before the build
+  pub seeds: Vec<(String, String, String)>,
 }
 
 pub fn day(t: i64) -> chrono::DateTime<chrono::Utc> {
@@ -399,6 +402,7 @@ impl RegWorld {
       "has_locker": self.has_locker,
       "lock_manifests": self.lock_manifests,
       "lock_remote": self.lock_remote,
+      "lockfile_jsr_seeds": self.seeds,
       "roots": self.roots,
       "user": self.user.iter().map(|u| json!({"url": u.url, "items": u.items.iter().map(|i| format!("{:?} {}", i.form, i.text)).collect::<Vec<_>>()})).collect::<Vec<_>>(),
       "pkgs": self.pkgs.iter().map(|p| json!({
@@ -615,6 +619,13 @@ pub fn try_build_reg(
   roots: Vec<String>,
 ) -> Result<Built, crate::build::BuildFailure> {
   let mut graph = graph;
+  if graph.packages.mappings().is_empty() {
+    for (name, req, ver) in &w.seeds {
+      if let (Ok(r), Ok(v)) = (deno_semver::package::PackageReq::from_str(&format!("{}@{}", name, req)), deno_semver::Version::parse_standard(ver)) {
+        graph.packages.add_nv(r, deno_semver::package::PackageNv { name: name.as_str().into(), version: v });
+      }
+    }
+  }
   let reporter = RecReporter { resolved: Mutex::new(vec![]), calls: loader.calls.clone() };
   let mut locker = initial_locker(w);
   let resolver = version_resolver(w);
@@ -909,5 +920,6 @@ pub fn gen_reg_world(rng: &mut Rng, cfg: &RegCfg) -> RegWorld {
     has_locker,
     lock_manifests,
     lock_remote: vec![],
+    seeds: vec![],
   }
 }
